@@ -425,6 +425,9 @@ func runC14(c *run.Ctx) {
 		w.AddFeature("rulesCoveringAllProtocolsOnlyTogether")
 		r.Ev("split_policy_rules_covering_all_protocols_only_together", 1)
 	}
+	if kind == 5 && g.P(0.35) && world.AddEverybodyPlusHoledRangeRule(g, w) {
+		r.Ev("split_cidr_next_to_an_all_pods_peer", 1)
+	}
 	w2, name, expect, added := applyC14Edit(g, w, cfg, kind)
 	if w2 == nil {
 		r.Ev("edit_not_applicable", 1)
